@@ -1,5 +1,6 @@
 import AdfProofs.UndelMarks
 import AdfProofs.UndelWriteSet
+import AdfProofs.TraceGrows
 /-!
 # A refused undelete gives every block back (C05)
 
@@ -486,5 +487,96 @@ theorem undelDir_takes_one_or_none (c : Cfg) (v pSect : Nat) (entry : Blk) (s : 
           refine ⟨(b3 _ List.mem_cons_self).1, (b3 _ List.mem_cons_self).2.2, b5 _ List.mem_cons_self (by simp), ?_⟩
           intro k hk hne
           exact b4 k hk (Or.inr (by simp [hne]))
+
+theorem getFileBlocks_quiet (c : Cfg) (v : Nat) (entry : Blk) (s : St) :
+    Post AnyFault c (getFileBlocks v entry) s (fun _ s' => Quiet s s') := by
+  unfold getFileBlocks
+  apply Post.bind; apply Post.getVolCfg
+  exact getFileBlocksExt_quiet c v _ _ s _ _ _ _ s (Quiet.rfl' s)
+
+/-- **`adfUndelFile` as a whole: either the free map is what it was, or the file has been linked** — for every disk
+    content, entry block, volume type, volume state and fault schedule: every way the call can end without a successful
+    link write in its log (wrong parent, header block in use, unreadable extension chain, a block of the file in use, the
+    name exists again, a refused write) leaves the free map block for block as it was when the call began -/
+theorem undelFile_restores_or_links (c : Cfg) (v pSect : Nat) (entry : Blk) (s : St)
+    (hwf : TableWF (s.mem.vol v).bitmapTable) :
+    Post AnyFault c (undelFile v pSect entry) s (fun _ s' => FreeMapEq v s.mem s'.mem ∨
+      ∃ W e, writesOf s'.trace = W ++ writesOf s.trace ∧ e ∈ W ∧ e.status = 0 ∧
+        ∃ d1, IsCreateLinkWr c d1 v (blkOfBytes ((s.sector (vsect c v pSect)).take 512)) (entry.w F_headerKey) e) := by
+  have same : ∀ (s1 : St) (rc : RC), s1.mem = s.mem →
+      Post AnyFault c (pure rc : Prog RC) s1 (fun _ s' => FreeMapEq v s.mem s'.mem ∨
+        ∃ W e, writesOf s'.trace = W ++ writesOf s.trace ∧ e ∈ W ∧ e.status = 0 ∧
+          ∃ d1, IsCreateLinkWr c d1 v (blkOfBytes ((s.sector (vsect c v pSect)).take 512)) (entry.w F_headerKey) e) := by
+    intro s1 rc hm
+    exact Post.pure _ _ _ _ (Or.inl (by rw [hm]; exact FreeMapEq.rfl' v s.mem))
+  unfold undelFile
+  apply Post.bind
+  refine Post.mono _ _ _ _ _ (Post.and c _ s _ _ (Post.runEq (F := AnyFault) c (checkParent v pSect) s (fun _ => trivial))
+    (Post.and c _ s (fun _ s' => s'.mem = s.mem ∧ writesOf s'.trace = writesOf s.trace) (fun _ s' => s'.disk = s.disk) ?_ ?_)) ?_
+  · apply checkParent_untouched; intro rc s' hm hw; exact ⟨hm, hw⟩
+  · apply checkParent_still; intro rc s' hd _; exact hd
+  rintro rc0 s1 ⟨_, ⟨hm1, hw1⟩, hd1⟩
+  by_cases hrc0 : rc0 ≠ rcOK
+  · rw [if_pos hrc0]; exact same s1 _ hm1
+  rw [if_neg hrc0]
+  split
+  · exact same s1 _ hm1
+  apply Post.bind; apply isBlockFree_val
+  cases hfree : bmIsFree (s1.mem.vol v).bitmapTable (entry.w F_headerKey) with
+  | false =>
+    simp only [Bool.not_false, if_true]
+    exact same s1 _ hm1
+  | true =>
+    simp only [Bool.not_true]
+    rw [if_neg (by decide)]
+    apply Post.bind
+    refine Post.mono _ _ _ _ _ (Post.and c _ s1 _ _ (getFileBlocks_mem c v entry s1)
+      (getFileBlocks_quiet c v entry s1)) ?_
+    rintro ⟨rc, data, exts⟩ s2 ⟨hm2, hq2⟩
+    dsimp only
+    by_cases hrc : rc ≠ rcOK
+    · rw [if_pos hrc]; exact same s2 _ (hm2.trans hm1)
+    rw [if_neg hrc]
+    unfold undelFileRest
+    apply Post.bind; apply Post.getVolCfg
+    apply Post.bind
+    have hwf2 : TableWF (s2.mem.vol v).bitmapTable := by rw [hm2, hm1]; exact hwf
+    have hfree2 : bmIsFree (s2.mem.vol v).bitmapTable (entry.w F_headerKey) = true := by rw [hm2]; exact hfree
+    refine Post.mono _ _ _ _ _ (Post.and c _ s2 _ _ (undelFileLink_refused_restores c v pSect entry data exts s2 hwf2 hfree2)
+      (undelFileLink_write_set c v pSect entry data exts s2)) ?_
+    rintro ⟨rc3, cont⟩ s3 ⟨hrest, W, hW, hL⟩
+    have hsect : s2.sector (vsect c v pSect) = s.sector (vsect c v pSect) := by
+      unfold St.sector; rw [hq2.1, hd1]
+    have hdisk2 : s2.disk = s.disk := hq2.1.trans hd1
+    cases cont with
+    | none =>
+      apply Post.pure
+      left
+      have := hrest rfl
+      intro k hk
+      rw [this k hk, hm2, hm1]
+    | some pe =>
+      obtain ⟨parent, e⟩ := pe
+      obtain ⟨own, rest, hWr, _, _, hr⟩ := hL
+      rcases hr with ⟨h, _⟩ | ⟨d1, link, hrl, _, hl, hst⟩
+      · cases h
+      · rw [hsect] at hl
+        have hlinked : ∀ (s' : St) (Wb : List Ev), writesOf s'.trace = Wb ++ writesOf s3.trace →
+            ∃ W e, writesOf s'.trace = W ++ writesOf s.trace ∧ e ∈ W ∧ e.status = 0 ∧
+              ∃ d1, IsCreateLinkWr c d1 v (blkOfBytes ((s.sector (vsect c v pSect)).take 512)) (entry.w F_headerKey) e := by
+          intro s' Wb hWb
+          refine ⟨Wb ++ W, link, by rw [hWb, hW, hq2.2.2, hw1]; simp, ?_, hst.mpr rfl, d1, hl⟩
+          rw [hWr, hrl]; simp
+        dsimp only
+        have tailQ : ∀ (p : Prog RC), Post AnyFault c p s3 (fun _ s' => ∃ Wb, writesOf s'.trace = Wb ++ writesOf s3.trace) →
+            Post AnyFault c p s3 (fun _ s' => FreeMapEq v s.mem s'.mem ∨
+              ∃ W e, writesOf s'.trace = W ++ writesOf s.trace ∧ e ∈ W ∧ e.status = 0 ∧
+                ∃ d1, IsCreateLinkWr c d1 v (blkOfBytes ((s.sector (vsect c v pSect)).take 512)) (entry.w F_headerKey) e) := by
+          intro p hp
+          refine Post.mono _ _ _ _ _ hp ?_
+          rintro _ s' ⟨Wb, hWb⟩
+          exact Or.inr (hlinked s' Wb hWb)
+        apply tailQ
+        exact writes_grow c _ s3 (fun _ => trivial)
 
 end Adf
